@@ -160,15 +160,23 @@ NativeInteger_encode_der(const asn_TYPE_descriptor_t *sd, const void *ptr,
 	tmp.size = sizeof(native);
 
 #else	/* Works even if WORDS_BIGENDIAN is not set where should've been */
-	uint8_t buf[sizeof(native)];
+	const asn_INTEGER_specifics_t *specs =
+		(const asn_INTEGER_specifics_t *)sd->specifics;
+	uint8_t buf[1 + sizeof(native)];
 	uint8_t *p;
 
 	/* Prepare a fake INTEGER */
-	for(p = buf + sizeof(buf) - 1; p >= buf; p--, native >>= 8)
+	for(p = buf + sizeof(buf) - 1; p > buf; p--, native >>= 8)
 		*p = (uint8_t)native;
+	*p = 0;	/* Keeps an unsigned value with the top bit set non-negative */
 
-	tmp.buf = buf;
-	tmp.size = sizeof(buf);
+	if(specs && specs->field_unsigned) {
+		tmp.buf = buf;
+		tmp.size = sizeof(buf);
+	} else {
+		tmp.buf = buf + 1;
+		tmp.size = sizeof(buf) - 1;
+	}
 #endif	/* WORDS_BIGENDIAN */
 	
 	/* Encode fake INTEGER */
